@@ -650,3 +650,68 @@ func HarnessC12ViewsObservable() {
 		vndAssert(got == 1, "one-stream-per-distinct-view-result")
 	}
 }
+
+// C02.reuse: two counters of one meter, one of which may be idle in a cycle,
+// read by a delta and a cumulative reader that each reuse one ResourceMetrics
+// for all their collections (as exporters and the periodic reader do): the
+// deltas still add up per instrument, the cumulative values are the totals
+func HarnessC02Reuse() {
+	rd := NewManualReader(WithTemporalitySelector(pipeDelta))
+	rc := NewManualReader()
+	mp := pipeProvider(nil, rd, rc)
+	m := mp.Meter("m")
+	names := []string{"c1", "c2"}
+	var ctr [2]metric.Int64UpDownCounter
+	for i := range ctr {
+		c, err := m.Int64UpDownCounter(names[i])
+		vndAssert(err == nil, "instrument-created")
+		ctr[i] = c
+	}
+	var rmD, rmC metricdata.ResourceMetrics // reused
+	var total, deltaTotal, cumLatest [2]int64
+	read := func(r Reader, rm *metricdata.ResourceMetrics, into *[2]int64, add bool) {
+		vndAssert(r.Collect(context.Background(), rm) == nil, "collect-no-error")
+		var seen [2]bool
+		for _, sm := range rm.ScopeMetrics {
+			for _, mt := range sm.Metrics {
+				d, ok := mt.Data.(metricdata.Sum[int64])
+				vndAssert(ok, "sum-reported")
+				for i := range names {
+					if mt.Name != names[i] {
+						continue
+					}
+					vndAssert(!seen[i], "one-stream-per-instrument")
+					seen[i] = true
+					vndAssert(len(d.DataPoints) == 1, "one-point-per-attribute-set")
+					for _, p := range d.DataPoints {
+						if add {
+							into[i] += p.Value
+						} else {
+							into[i] = p.Value
+						}
+					}
+				}
+			}
+		}
+	}
+	steps := vndParam("STEPS", 5)
+	for s := 0; s < steps; s++ {
+		switch op := vndChoice(4); op {
+		case 0, 1:
+			v := int64(vndInt(-20, 20))
+			total[op] += v
+			ctr[op].Add(context.Background(), v, metric.WithAttributeSet(pipeSets[0]))
+		case 2:
+			read(rd, &rmD, &deltaTotal, true)
+		case 3:
+			read(rc, &rmC, &cumLatest, false)
+		}
+	}
+	read(rd, &rmD, &deltaTotal, true)
+	read(rc, &rmC, &cumLatest, false)
+	vndReach("final")
+	for i := range names {
+		vndAssert(deltaTotal[i] == total[i], "delta-collections-add-up-to-the-total")
+		vndAssert(cumLatest[i] == total[i], "cumulative-reader-sees-the-running-total")
+	}
+}
